@@ -1,9 +1,11 @@
 /-
   GV.Model.Cache — the build cache of /repo/build/cache/cache.go.
 
-  * key derivation: `commonKey` (cache.go:249-269, Go's `%#v` of a struct of strings, i.e.
-    `strconv.Quote` per string), `packageKey` (cache.go:272-274, `path.Join`), `cachedPath`
-    (cache.go:67-74, SHA-256 replaced by an ABSTRACT function `h`);
+  * key derivation: `commonKey` (Go's `%#v` of a struct of strings, i.e. `strconv.Quote` per string,
+    with `unicode.IsPrint` an ABSTRACT predicate), `packageKey` ("package/" + commonKey + "/" + path —
+    the REPAIRED scheme of fixes/C20-key-without-path-clean.patch; the old `path.Join` scheme is kept
+    as `packageKeyOld` for the "repaired defects" theorems), `cachedPath` (SHA-256 replaced by an
+    ABSTRACT function `h`);
   * `isTestPackage` (cache.go:130-133);
   * `Store` (cache.go:135-172) as a sequence of file-system steps over an abstract file system
     (map path → bytes, atomic rename); `Load` (cache.go:174-207, 225-245);
@@ -12,6 +14,7 @@
   Strings are byte lists. Core Lean only.
 -/
 import GV.Model.PathClean
+import GV.Spec.Utf8
 
 namespace GV.Cache
 open GV.PathClean
@@ -25,10 +28,8 @@ abbrev Time := Int
 /-- lower-case hex digit; injective on all of ℕ (only values < 16 occur for bytes) -/
 def hexDigit (n : Nat) : Nat := if n < 10 then 48 + n else 87 + n
 
-/-- `strconv.appendEscapedRune` for one byte that is ASCII or not part of a valid UTF-8 sequence
-    (strconv/quote.go:33-108): `\a \b \f \n \r \t \v \\ \"`, printable ASCII as is, everything else
-    `\xhh`. (Bytes 0xC2..0xF4 followed by continuation bytes would form multi-byte runes, which the
-    model does not cover; the generators never produce them.) -/
+/-- `strconv.appendEscapedRune` for one byte that is ASCII or not part of a well-formed UTF-8 sequence
+    (strconv/quote.go:33-108): `\a \b \f \n \r \t \v \\ \"`, printable ASCII as is, everything else `\xhh`. -/
 def esc (b : Nat) : Str :=
   if b = 34 then [92, 34]
   else if b = 92 then [92, 92]
@@ -42,13 +43,32 @@ def esc (b : Nat) : Str :=
   else if 32 ≤ b ∧ b < 127 then [b]
   else [92, 120, hexDigit (b / 16), hexDigit (b % 16)]
 
-/-- escaped bytes followed by the closing quote -/
-def quoteBody : Str → Str
-  | [] => [34]
-  | b :: r => esc b ++ quoteBody r
+/-- lower-case hex digits of `r`, `n` of them, most significant first -/
+def hexN : Nat → Nat → Str
+  | 0, _ => []
+  | n + 1, r => hexN n (r / 16) ++ [hexDigit (r % 16)]
+
+/-- `strconv.appendEscapedRune` for a rune `r ≥ 0x80` decoded from the well-formed bytes `bs`
+    (strconv/quote.go:69-108): printable → the bytes themselves, else `\uXXXX` / `\UXXXXXXXX`. -/
+def escRune (isPrint : Nat → Bool) (r : Nat) (bs : Str) : Str :=
+  if isPrint r then bs
+  else if r < 0x10000 then 92 :: 117 :: hexN 4 r
+  else 92 :: 85 :: hexN 8 r
+
+/-- the loop of `strconv.appendQuotedWith` (strconv/quote.go:33-67) followed by the closing quote.
+    `skip` = number of bytes still to pass over because they belong to a rune already emitted.
+    `utf8.DecodeRuneInString` is `GV.Spec.Utf8.decodeL` (Unicode Table 3-7; an invalid byte gives
+    (U+FFFD, 1), which `Quote` prints as `\xhh`). -/
+def quoteAux (isPrint : Nat → Bool) : Nat → Str → Str
+  | _, [] => [34]
+  | k + 1, _ :: t => quoteAux isPrint k t
+  | 0, a :: t =>
+    let d := GV.Spec.Utf8.decodeL (a :: t)
+    if d.2 = 1 then esc a ++ quoteAux isPrint 0 t
+    else escRune isPrint d.1 ((a :: t).take d.2) ++ quoteAux isPrint (d.2 - 1) t
 
 /-- `strconv.Quote(s)` -/
-def quote (s : Str) : Str := 34 :: quoteBody s
+def quote (isPrint : Nat → Bool) (s : Str) : Str := 34 :: quoteAux isPrint 0 s
 
 /-! ### configuration and key -/
 
@@ -90,31 +110,33 @@ def litOpen : Str := [91, 93, 115, 116, 114, 105, 110, 103, 123]
 def litTestSuffix : Str := [95, 116, 101, 115, 116]
 
 /-- elements after the first one, then `}` -/
-def tagsRest : List Str → Str
+def tagsRest (ip : Nat → Bool) : List Str → Str
   | [] => [125]
-  | b :: r => [44, 32] ++ quote b ++ tagsRest r
+  | b :: r => [44, 32] ++ quote ip b ++ tagsRest ip r
 
 /-- `"a", "b"}` -/
-def tagsElems : List Str → Str
+def tagsElems (ip : Nat → Bool) : List Str → Str
   | [] => [125]
-  | a :: r => quote a ++ tagsRest r
+  | a :: r => quote ip a ++ tagsRest ip r
 
 /-- `%#v` of a `[]string` (fmt/print.go printValue, Slice case) -/
-def renderTags : Option (List Str) → Str
+def renderTags (ip : Nat → Bool) : Option (List Str) → Str
   | none => litNil
-  | some l => litOpen ++ tagsElems l
+  | some l => litOpen ++ tagsElems ip l
 
-/-- `commonKey` (cache.go:249-269): `fmt.Sprintf("%#v", ck)` of the function-local struct type -/
-def commonKey (c : Cfg) : Str :=
-  litHead ++ (quote c.goos ++ (litArch ++ (quote c.goarch ++ (litRoot ++ (quote c.goroot ++
-    (litPath ++ (quote c.gopath ++ (litTags ++ (renderTags c.tags ++ (litVersion ++
-      (quote c.version ++ [125])))))))))))
+/-- `commonKey` (cache.go:249-269): `fmt.Sprintf("%#v", ck)` of the function-local struct type;
+    `ip` = `unicode.IsPrint` on runes ≥ 0x80 -/
+def commonKey (ip : Nat → Bool) (c : Cfg) : Str :=
+  litHead ++ (quote ip c.goos ++ (litArch ++ (quote ip c.goarch ++ (litRoot ++ (quote ip c.goroot ++
+    (litPath ++ (quote ip c.gopath ++ (litTags ++ (renderTags ip c.tags ++ (litVersion ++
+      (quote ip c.version ++ [125])))))))))))
 
-/-- the string that `path.Join` builds before cleaning it -/
-def rawKey (c : Cfg) (p : Str) : Str := litPackage ++ 47 :: (commonKey c ++ 47 :: p)
+/-- `packageKey` (cache.go, repaired): `"package/" + bc.commonKey() + "/" + importPath` -/
+def packageKey (ip : Nat → Bool) (c : Cfg) (p : Str) : Str := litPackage ++ 47 :: (commonKey ip c ++ 47 :: p)
 
-/-- `packageKey` (cache.go:272-274) -/
-def packageKey (c : Cfg) (p : Str) : Str := pathJoin [litPackage, commonKey c, p]
+/-- REPAIRED DEFECT — the scheme before fixes/C20-key-without-path-clean.patch:
+    `path.Join("package", bc.commonKey(), importPath)` -/
+def packageKeyOld (ip : Nat → Bool) (c : Cfg) (p : Str) : Str := pathJoin [litPackage, commonKey ip c, p]
 
 /-- `isTestPackage` (cache.go:130-133) -/
 def isTestPackage (bc : BuildCache) (p : Str) : Bool :=
@@ -122,16 +144,17 @@ def isTestPackage (bc : BuildCache) (p : Str) : Bool :=
 
 /-! ### abstract environment: hash, envelope -/
 
-/-- What is NOT modelled: `h` = file name derived from SHA-256 of the key (cache.go:72-73);
+/-- What is NOT modelled: `isPrint` = `unicode.IsPrint` (Unicode tables); `h` = file name derived from SHA-256 of the key (cache.go:72-73);
     `sealE`/`openE` = gzip(gob(buildTime) ++ payload) and its reader. -/
 structure Env (Payload : Type) where
+  isPrint : Nat → Bool
   h : Str → Str
   sealE : Time × Payload → Bytes
   openE : Bytes → Option (Time × Payload)
 
-/-- `cachedPath(key)` (cache.go:67-74): `path.Join` of the single key, then the hash -/
+/-- `cachedPath(packageKey)` (cache.go:67-74, repaired): `strings.Join` of the single key, then the hash -/
 def cachedPath {P : Type} (E : Env P) (c : Cfg) (p : Str) : Str :=
-  E.h (pathJoin [packageKey c p])
+  E.h (joinSlash [packageKey E.isPrint c p])
 
 /-! ### abstract file system and the steps of Store -/
 
